@@ -138,6 +138,12 @@ class Episode(object):
         k = self.world.kernel
         if 'literal' in ref:
             return ref['literal']
+        if 'reused' in ref:
+            # the pid of a dead worker of that watcher that now belongs to a
+            # stranger
+            pids = sorted(pid for pid, old in getattr(k, 'reused', {}).items()
+                          if old.marker == self.marker(ref['reused']))
+            return pids[0] if pids else 999997
         live = sorted(p.pid for p in k.live_by_marker(self.marker(ref['w'])))
         if 'dead' in ref:
             dead = sorted(p.pid for p in k.children_of_daemon()
@@ -295,6 +301,20 @@ class Episode(object):
             self.fired['dsig:%d' % op['sig']] += 1
             self.note('dsig')
             w.daemon_signal(op['sig'])
+        self.place(op.get('place'), fire, 'op')
+
+    def op_pidreuse(self, i, op):
+        """the pid of a worker that is dead and waited for (but still in the
+        watcher's table) goes to a process that is none of the daemon's"""
+        k = self.world.kernel
+
+        def fire():
+            me = k.getpid_value
+            dead = sorted(p.pid for p in list(k.procs.values())
+                          if p.orig_parent == me and p.state == 'reaped' and
+                          p.marker == self.marker(op['w']))
+            if dead and k.reuse_pid(dead[op.get('j', 0) % len(dead)]):
+                self.fired['pid_reused'] += 1
         self.place(op.get('place'), fire, 'op')
 
     def op_clockjump(self, i, op):
